@@ -1,5 +1,6 @@
 """Zorg's event and command handlers live here."""
 
+from dataclasses import replace
 import datetime as dt
 import hashlib
 import json
@@ -228,6 +229,15 @@ def reindex_database(
             session.repo.add_file(zorg_page)
             if zorg_page.events:
                 pages_awaiting_write_back.add(zorg_page_name)
+                # Only the last rewrite of a page may record its hash.
+                zorg_page.events[:-1] = [
+                    (
+                        replace(event, more_rewrites_pending=True)
+                        if isinstance(event, events.ModifiedZorgNotesEvent)
+                        else event
+                    )
+                    for event in zorg_page.events[:-1]
+                ]
             session.commit()
 
     # When the whole directory is reindexed, pages that no longer exist on
@@ -301,6 +311,7 @@ def update_note_modify_dates(
         add_thing_to_first_line=_add_or_update_modify_date,
         get_thing=lambda _: today_short_date,
         log_message="Updating modify dates",
+        record_hash=not event.more_rewrites_pending,
     )
 
 
@@ -470,6 +481,7 @@ def _update_zo_file(
     add_thing_to_first_line: _AddThingToFirstLine,
     get_thing: _GetThing,
     log_message: str,
+    record_hash: bool = True,
 ) -> None:
     zlines = zo_path.read_text().split("\n")
     for note in notes_to_update:
@@ -491,6 +503,12 @@ def _update_zo_file(
         notes_to_update=len(notes_to_update),
     )
     zo_path.write_text("\n".join(zlines))
+
+    if not record_hash:
+        # Another rewrite of this page is still pending. Until it is done the
+        # page must keep looking "changed" to 'db reindex', otherwise a run
+        # that dies in between could never be completed.
+        return
 
     # Only this file was rewritten (and it is already indexed with its new
     # contents). Re-hashing every file here would mark pages that were edited
